@@ -9,52 +9,67 @@ import Arrai.C06.Gen
 namespace Arrai.C07
 open Arrai.C06
 
-/-- does some set-builder call of the evaluation receive two sugar tuples of one kind at one index, or byte tuples
-with a gap (`KF-superimposed`, `KF-bytes-holes`)? -/
-def superAt : Ex → Bool
+/-- does some set-builder call of the evaluation (under the identity order) receive a member list satisfying `chk`? -/
+def siteAny (chk : List Rep → Bool) : Ex → Bool
   | .lit _ _ => false
   | .union a b =>
-    superAt a || superAt b ||
+    siteAny chk a || siteAny chk b ||
       (match Impl.evalUnder id a, Impl.evalUnder id b with
-       | .ok A, .ok B => (superimposed (members A ++ members B) || bytesHoles (members A ++ members B))
+       | .ok A, .ok B => chk (members A ++ members B)
        | _, _ => false)
   | .inter a b =>
-    superAt a || superAt b ||
+    siteAny chk a || siteAny chk b ||
       (match Impl.evalUnder id a, Impl.evalUnder id b with
-       | .ok A, .ok B => bytesHoles ((members A).filter (fun x => Impl.memberOf x B))
+       | .ok A, .ok B => chk ((members A).filter (fun x => Impl.memberOf x B))
        | _, _ => false)
   | .diff a b =>
-    superAt a || superAt b ||
+    siteAny chk a || siteAny chk b ||
       (match Impl.evalUnder id a, Impl.evalUnder id b with
-       | .ok A, .ok B => bytesHoles ((members A).filter (fun x => !Impl.memberOf x B))
+       | .ok A, .ok B => chk ((members A).filter (fun x => !Impl.memberOf x B))
        | _, _ => false)
   | .map a f =>
-    superAt a || (match Impl.evalUnder id a with
-      | .ok A => superimposed ((members A).map f.apply) || bytesHoles ((members A).map f.apply)
+    siteAny chk a || (match Impl.evalUnder id a with
+      | .ok A => chk ((members A).map f.apply)
       | .err => false)
   | .filter a p =>
-    superAt a || (match Impl.evalUnder id a with
-      | .ok A => bytesHoles ((members A).filter p.apply)
+    siteAny chk a || (match Impl.evalUnder id a with
+      | .ok A => chk ((members A).filter p.apply)
       | .err => false)
-  | .orderby a _ => superAt a
+  | .orderby a _ => siteAny chk a
   | .with_ a e =>
-    superAt a || superAt e ||
+    siteAny chk a || siteAny chk e ||
       (match Impl.evalUnder id a, Impl.evalUnder id e with
-       | .ok A, .ok x => superimposed (members A ++ [x]) || bytesHoles (members A ++ [x])
+       | .ok A, .ok x => chk (members A ++ [x])
        | _, _ => false)
   | .without a e =>
-    superAt a || superAt e ||
+    siteAny chk a || siteAny chk e ||
       (match Impl.evalUnder id a, Impl.evalUnder id e with
-       | .ok A, .ok x => bytesHoles ((members A).filter (fun y => !C06.Impl.equal y x))
+       | .ok A, .ok x => chk ((members A).filter (fun y => !C06.Impl.equal y x))
        | _, _ => false)
-  | .count a => superAt a
-  | .single a => superAt a
+  | .count a => siteAny chk a
+  | .single a => siteAny chk a
+  | .setpat lits _ a =>
+    siteAny chk a || (match Impl.evalUnder id a with
+      | .ok A => chk ((members A).filter (fun y => !lits.any (fun l => C06.Impl.equal y l.2)))
+      | .err => false)
+  | .rank a _ => siteAny chk a
+
+/-- two sugar tuples of one kind at one index somewhere (`KF-superimposed`: genuine order dependence) -/
+def superAt (e : Ex) : Bool := siteAny superimposed e
+
+/-- byte tuples with a gap somewhere (`KF-bytes-holes`: `asBytes` fills the gap with byte 0 — deterministic, but the set
+gains members, C01's finding) -/
+def holesAt (e : Ex) : Bool := siteAny bytesHoles e
+
+/-- class of a case: each known finding under its own id -/
+def clsOf (e : Ex) : String :=
+  if superAt e then "KF-superimposed" else if holesAt e then "KF-bytes-holes" else "good"
 
 /-- an `orderby` whose keys tie somewhere (documented as order-dependent) -/
 def tiesAt : Ex → Bool
   | .lit _ _ => false
   | .union a b | .inter a b | .diff a b | .with_ a b | .without a b => tiesAt a || tiesAt b
-  | .map a _ | .filter a _ | .count a | .single a => tiesAt a
+  | .map a _ | .filter a _ | .count a | .single a | .setpat _ _ a | .rank a _ => tiesAt a
   | .orderby a f =>
     tiesAt a || (match Impl.evalUnder id a with
       | .ok A =>
@@ -243,7 +258,7 @@ def genPgCase (idx : Nat) : Gen Case := do
 
 def mkCase (id stratum : String) (e : Ex) : Case :=
   let o := Impl.obs (Impl.evalUnder (fun l => l) e)
-  let cls := if superAt e then "KF-superimposed" else "good"
+  let cls := clsOf e
   if tiesAt e then
     -- tied orderby keys: documented as order-dependent; only "no crash" is demanded and the case is not
     -- compared across processes
@@ -254,7 +269,7 @@ def mkCase (id stratum : String) (e : Ex) : Case :=
 def exName : Ex → String
   | .lit _ _ => "lit" | .union _ _ => "union" | .inter _ _ => "inter" | .diff _ _ => "diff" | .map _ _ => "map"
   | .filter _ _ => "where" | .orderby _ _ => "orderby" | .with_ _ _ => "with" | .without _ _ => "without"
-  | .count _ => "count" | .single _ => "single"
+  | .count _ => "count" | .single _ => "single" | .setpat _ _ _ => "setpat-ex" | .rank _ _ => "rank-ex"
 
 def corpus : List Case :=
   let n (i : Int) := ofLitVal (.num i)
